@@ -677,6 +677,15 @@ static vector<Cfg> configs(int n, const string& set) {
     c.n = n; c.ip = ip; c.dt = dt; c.warm = warm;
     out.push_back(c);
   }
+  // one of the messages is a chained one (three part IDs): for polling it is one entry with its priority like any other
+  for (const string& ip : ips) {
+    if (ip.find('0') != string::npos || ip.find('-') != string::npos) continue;
+    for (int slot : {0, n - 1}) {
+      Cfg c;
+      c.n = n; c.ip = ip; c.dt = 1; c.warm = slot == 0 ? 0 : 50; c.chain = slot;
+      out.push_back(c);
+    }
+  }
   return out;
 }
 
@@ -686,6 +695,7 @@ static bool parseCfg(const std::map<string, string>& m, Cfg* c) {
   c->ip = get("ip");
   c->dt = atoi(get("dt").c_str());
   c->warm = atoi(get("warm").c_str());
+  c->chain = get("chain").empty() ? -1 : atoi(get("chain").c_str());
   if (c->n < 1 || c->n > MAXSLOT || static_cast<int>(c->ip.size()) != c->n || c->dt < 0 || c->warm < 0) return false;
   for (char ch : c->ip) if (ch != '-' && (ch < '0' || ch > '9')) return false;
   return true;
